@@ -1,8 +1,8 @@
-(* C11 / K16: the code emitted by the (translated) loop of UnionUnpackerBuilder._add_body computes
-   UnionModel.union_dec.  Re-checked on every run against the current translation (coq/gen/K16.v). *)
+(* C11 / K19: the code emitted by the (translated) loop of UnionUnpackerBuilder._add_body computes
+   UnionModel.union_dec.  Re-checked on every run against the current translation (coq/gen/K19.v). *)
 From Coq Require Import List Bool Arith Lia.
 From Verif Require Import UnionModel UnionProofs UnionEmit.
-From VerifGen Require Import K16.
+From VerifGen Require Import K19.
 Import ListNotations.
 
 Definition mk (m: mspec) : mkey := member_key (to_member m).
